@@ -3,5 +3,6 @@ CONSTANTS
   KK = 20
   StaleC = 900000
   RefreshKnownC = TRUE
+  RekeySortedC = TRUE
 POSTCONDITION TraceAccepted
 CHECK_DEADLOCK FALSE
